@@ -14,7 +14,7 @@ from vlib import eql_gen as GEN
 ID = "C01"
 LEVEL = "exploration"
 RULE = ("random query specs from 10 families (and/or/not core, rich atoms incl. calls/index/predicates/symbolic "
-        "functions/HasType, flatten variables, nested sub-queries, exists E1/E2, for_all, multi-expression selection "
+        "functions/HasType, method calls and index keys whose arguments are themselves terms over variables, flatten variables, nested sub-queries, exists E1/E2, for_all, multi-expression selection "
         "bound/unbound) over random worlds of 1-6 objects with value-equal distinct objects, empty domains and empty "
         "collections, plus (thorough) the exhaustive sweep of all condition skeletons of depth<=2 over two variables "
         "with 2-element domains; non-trivial = expected row set is a non-empty proper subset of the candidate rows "
